@@ -460,6 +460,23 @@ def check(run: Run) -> None:
         R.k1(run, "C13.i", fa, rl, spec, role_calls={"UNBIND": r"plan\.ops->unbind", "PEER": r"plan\.ops->apply_peered_reference",
                                                       "NONPEER": r"plan\.ops->apply_non_peered_reference"}, what="apply_reference_to_from_ref_data")
 
+    with run.obligation("C13.n", "K7", "the per-tick accessors of an input read through a reference agree about a retarget: modified() consults the link's sampled "
+                        "structural transition, so delta_value() must consult it too (otherwise a keyed input is modified at the retarget cycle while its "
+                        "delta_value() is empty) (KNOWN FINDING F-C13-2 on the current tree)"):
+        fm = R.fn(run, BASE, "TSInputView::InputDataCursor::modified")
+        fd_ = R.fn(run, BASE, "TSInputView::delta_value")
+        uses = lambda fa_: any(isinstance(n_, C.Member) and n_.name in ("sampled_structural_transition", "structural_transition_time", "structural_delta_value",
+                                                                        "transition_delta_value") for n_ in fa_.body.walk()) or \
+            any(R.callee_name(c).split("::")[-1] in ("sampled_structural_transition", "structural_transition_time", "structural_delta_value", "transition_delta_value")
+                for c in R.calls(fa_))
+        run.count(1, "C13.n")
+        if uses(fm) and not uses(fd_):
+            run.finding("C13.n", "TSInputView::delta_value:ignores-sampled-transition", "InputDataCursor::modified reports a sampled structural transition (retarget of a keyed "
+                        "reference) but TSInputView::delta_value never looks at it: at the retarget cycle a TSS/TSD input is modified and added()/removed() describe the "
+                        "old/new difference, while delta_value() has no value", loc=fd_.loc(fd_.body))
+        if not uses(fm):
+            run.finding("C13.n", "InputDataCursor::modified:ignores-sampled-transition", "modified() no longer consults the sampled structural transition", loc=BASE)
+
 
 VARIANTS = [
     {"id": "i-owned-row-uses-peered-unbind", "expect": "C13.i", "edits": [{"file": ALT, "find": "                    &unbind_from_ref_owned,", "replace": "                    &unbind_from_ref_peered,"}]},
